@@ -3,6 +3,8 @@
 package seeds
 
 import (
+	"bytes"
+	"compress/zlib"
 	"fmt"
 	"os"
 	"path/filepath"
@@ -44,6 +46,14 @@ func Repo() []Seed {
 		}
 	}
 	return out
+}
+
+func zlibBytes(p []byte) []byte {
+	var z bytes.Buffer
+	w := zlib.NewWriter(&z)
+	w.Write(p)
+	w.Close()
+	return z.Bytes()
 }
 
 func kindOf(b []byte) string {
@@ -166,6 +176,19 @@ func Hostile() []Seed {
 	add("png-iccp-len3-badmethod", append(append([]byte(nil), base...), 0, 0, 0, 3, 'i', 'C', 'C', 'P', 'a', 0, 9, 1, 2, 3, 4))
 	add("png-iccp-huge", append(append([]byte(nil), base...), 0xFF, 0xFF, 0xFF, 0xFF, 'i', 'C', 'C', 'P', 'a', 0, 0, 0x78, 0x9c))
 	add("png-iccp-before-ihdr", append(append(append([]byte(nil), build.PNGSig...), 0, 0, 0, 4, 'i', 'C', 'C', 'P', 'a', 0, 0, 0x78, 1, 2, 3, 4), base[8:]...))
+	// PNG files (valid IHDR, valid chunk framing and CRCs) whose iCCP deflate stream is damaged in different ways
+	for name, z := range map[string][]byte{
+		"bad-zlib-header":  {0x00, 0x00, 1, 2, 3, 4, 5, 6, 7, 8, 9, 10, 11, 12, 13, 14, 15, 16, 17, 18, 19, 20},
+		"bad-zlib-header2": append([]byte{0x78, 0x9d}, make([]byte, 300)...),
+		"bad-deflate-body": {0x78, 0x9c, 0xFF, 0xFF, 0xFF, 0xFF, 1, 2, 3, 4, 5, 6, 7, 8, 9},
+		"stream-then-garbage": append(zlibBytes([]byte("profile bytes profile bytes")), make([]byte, 5000)...),
+		"truncated-stream": zlibBytes(make([]byte, 3000))[:12],
+		"bad-adler": func() []byte { b := zlibBytes([]byte("abcdefgh")); b[len(b)-1] ^= 1; return b }(),
+	} {
+		p := build.PNG{W: 15, H: 16, Depth: 8, ColorType: 2, Pre: []build.Chunk{{Type: "gAMA", Data: []byte{0, 0, 0xb1, 0x8f}}, build.RawICCPChunk("damaged", z), {Type: "tEXt", Data: make([]byte, 700)}}, IDAT: []byte{1, 2, 3}}
+		d, _ := p.Bytes()
+		add("png-iccp-"+name, d)
+	}
 	// WebP edges
 	add("webp-vp8x-len9", []byte("RIFF\x1a\x00\x00\x00WEBPVP8X\x09\x00\x00\x00\x20\x00\x00\x00\x01\x00\x00\x01\x00"))
 	add("webp-vp8x-flag-eof", []byte("RIFF\x16\x00\x00\x00WEBPVP8X\x0a\x00\x00\x00\x20\x00\x00\x00\x01\x00\x00\x01\x00\x00"))
